@@ -173,13 +173,14 @@ RejectedPositions(kinds, e) == IF Rejecting(e) /\ FirstLit(kinds) # 0 THEN {Firs
 (***************************************************************************)
 Recvs == {"ref", "mut", "own", "rc", "arc", "pin"}
 \* "mlvec": `&'a mut Vec<u8>` with a named lifetime on the reference (still a plain mutable borrow: the matcher sees it)
-ParamKinds == {"u8", "string", "ru8", "str", "mu8", "mvec", "mlvec", "slice", "vec", "gen", "optstr", "pair", "rru8", "into"}
+\* "tstr": `&'t str` where 't is a lifetime parameter of the TRAIT (trait Tr<'t> { .. })
+ParamKinds == {"u8", "string", "ru8", "str", "tstr", "mu8", "mvec", "mlvec", "slice", "vec", "gen", "optstr", "pair", "rru8", "into"}
 AnswerView(k, i) ==
   CASE k = "u8"     -> ToString(i)
     [] k = "string" -> "s" \o ToString(i)
     [] k = "ru8"    -> "&" \o ToString(i)
     [] k = "rru8"   -> "&&" \o ToString(i)
-    [] k = "str"    -> "&s" \o ToString(i)
+    [] k \in {"str", "tstr"} -> "&s" \o ToString(i)
     [] k = "mu8"    -> "&mut " \o ToString(i)
     [] k \in {"mvec", "mlvec"} -> "&mut [" \o ToString(i) \o "]"
     [] k = "slice"  -> "&[" \o ToString(i) \o "," \o ToString(i + 1) \o "]"
@@ -217,7 +218,8 @@ ValidShape(sh) ==
   /\ (sh.api = "hidden" => sh.recv = "ref" /\ sh.ret \notin SelfBorrowing /\ \A i \in 1..Len(sh.params) : sh.params[i] \notin {"gen", "into"})
   /\ (sh.async # "none" => \A i \in 1..Len(sh.params) : sh.params[i] \notin {"into"})
   /\ Cardinality({ i \in 1..Len(sh.params) : sh.params[i] \in {"gen", "into"} }) <= 1
-  /\ ((\E i \in 1..Len(sh.params) : sh.params[i] = "mlvec") => sh.async = "none" /\ sh.api # "hidden")
+  /\ ((\E i \in 1..Len(sh.params) : sh.params[i] \in {"mlvec", "tstr"}) => sh.async = "none" /\ sh.api # "hidden")
+  /\ ((\E i \in 1..Len(sh.params) : sh.params[i] = "tstr") => sh.ret \notin {"assoc", "pref"})
 Forward(sh) ==
   [matcher |-> [i \in 1..Len(sh.params) |-> MatcherView(sh.params[i], i)],
    answer  |-> [i \in 1..Len(sh.params) |-> AnswerView(sh.params[i], i)],
